@@ -166,3 +166,25 @@ Section Merge.
   Definition merge_worker (main : env) (w : worker) : env := merge_docs main (fst w) (snd w).
   Definition merge_all (main : env) (wks : list worker) : env := fold_left merge_worker wks main.
 End Merge.
+
+(* ------------------------------------------------------------------ the model instance given by the tables,
+   and a concrete run of it (extracted for the correspondence check: coq/Extract/ExC15.v) *)
+Definition ws_table : list string := map w_target writes.
+Definition kl_table (c : string) : klass :=
+  match find (fun w => String.eqb (w_target w) c) writes with
+  | Some w => match classify w with Some k => k | None => Leak end
+  | None => NotInParse          (* not a cell the package writes *)
+  end.
+
+(* inputs are numbered; the constant written is 1, a per-document value is 2 + input, the cached
+   function is the identity on keys, the key of an input is the input, a leak adds to the old content *)
+Definition trace_step (g : G nat nat) (i : nat) : G nat nat :=
+  steps nat nat nat kl_table (fun _ => 1) (fun _ i => 2 + i) (fun _ k => k) (fun _ i => i) (fun _ i v => S (v + i)) i g ws_table.
+
+Fixpoint trace_states (g : G nat nat) (h : list nat) : list (G nat nat) :=
+  match h with [] => [] | i :: t => let g' := trace_step g i in g' :: trace_states g' t end.
+
+(* the cell states before the first parse and after each parse of the history, for the given cells *)
+Definition trace (cells : list string) (h : list nat) : list (list (cstate nat nat)) :=
+  let g := g0 nat nat kl_table (fun _ => 0) in
+  map (fun st => map st cells) (g :: trace_states g h).
